@@ -1057,6 +1057,19 @@ class Engine:
         b = self.closure_body(clo.span)
         return self.call_body(b, [clo] + list(args), st, where)
 
+    def call_callable(self, f, args, st, where):
+        """closure value or function item used as a callback by a std model"""
+        if isinstance(f, Clo):
+            return self.call_closure(f, args, st, where)
+        if isinstance(f, Opq) and f.what.startswith('fn '):
+            path = f.what[3:].strip()
+            b = self.resolve(path)
+            if b is not None:
+                return self.call_body(b, list(args), st, where)
+            # tuple-struct / enum-variant constructors used as functions
+            raise Unsupported('function item ' + path)
+        raise Unsupported('callable %r' % (f,))
+
     def needs_inline(self, target, args):
         mir.analyse_cfg(target)
         if target.has_loops:
